@@ -89,14 +89,16 @@ pub fn run(args: &Args) -> Report {
                     // set_input_offset is only legal on a hasher that has accepted no input
                     let s = &mut slots[si];
                     if s.m.bytes.is_empty() {
-                        let (c, maxchunks) = valid_offset(rng);
+                        // offset 0 is a valid offset too ("the default"), and a hasher that has not
+                        // accepted input may be re-pointed any number of times
+                        let (c, maxchunks) = if rng.chance(1, 5) { (0, 1u64 << 40) } else { valid_offset(rng) };
                         ops.push(format!("s{}.set_input_offset({}*1024)", si, c));
                         match guarded(|| {
                             s.h.set_input_offset(c * 1024);
                         }) {
                             Ok(()) => {
                                 s.m.first_chunk = c;
-                                s.cap = Some(maxchunks * 1024);
+                                s.cap = if c == 0 { None } else { Some(maxchunks * 1024) };
                             }
                             Err(m) => fail!("set_input_offset/panic", "set_input_offset({}) on an empty hasher panicked: {}", c * 1024, m),
                         }
